@@ -2,6 +2,7 @@ import Heathcliff.Proofs.GenRns8
 import Heathcliff.Proofs.GenRns11
 import Heathcliff.Proofs.GenRns14
 import Heathcliff.Proofs.GenRns16
+import Heathcliff.Proofs.GenRns19
 import Heathcliff.Proofs.C01EW
 
 /-!
@@ -190,5 +191,25 @@ theorem grw_decompose_array : GenR.rnsbase_decompose_array [5000, 0, 10960, 0] n
   have e : p = (p / 2) * 2 + p % 2 := by omega
   rw [e, hv (p / 2) (p % 2) (by omega) (by omega)]
   interval_cases p <;> rfl
+
+/-! ### `exact_convey_array` / `decrypt_mod_t`: {97, 113} → {17} on `nv_c0` (CRT values 10960, 1363, 2134, 7122), DIRTY output buffer; the erased f64
+    pipeline is instantiated with the exact rational rounding (cut to a u64) -/
+
+theorem grw_eca_eq : GenR.exact_convey_array (flatP nv_c0) [9, 9, 9, 9] nv_conv.ibase.size nv_conv.obase.size nv_conv.ibase.invPunct.toList
+      nv_conv.ibase.base.toList nv_conv.obase.base.toList (limbsOf nv_conv.ibase.size nv_conv.ibase.prod) (nv_conv.matrix.toList.map Array.toList)
+      (fun l => exactRound nv_conv l % 2^64)
+    = ((transpose nv_c0 4).toList.mapM (fun x => nv_conv.exactConvey x)) := by
+  obtain ⟨e1, e2, hM⟩ := gr_matOK_new nv_base_wf nv_base17_wf nv_conv_new
+  have h2 : nv_conv.ibase.size = 2 := rfl
+  refine gr_exact_convey_array_eq nv_conv nv_base_wf nv_base17_wf hM rfl nv_c0 #[9, 9, 9, 9] 4 _ rfl ?_ ?_ rfl (by decide) (fun l => Nat.mod_lt _ (by norm_num)) ?_
+  · intro i hi; rw [h2] at hi; interval_cases i <;> rfl
+  · intro i j hi hj; rw [h2] at hi; interval_cases i <;> interval_cases j <;> decide +kernel
+  · intro j hj; interval_cases j <;> decide +kernel
+
+/-- the values: −1, 1363, 2134, −3839 (centred) modulo 17 -/
+theorem grw_eca_val : GenR.exact_convey_array (flatP nv_c0) [9, 9, 9, 9] nv_conv.ibase.size nv_conv.obase.size nv_conv.ibase.invPunct.toList
+      nv_conv.ibase.base.toList nv_conv.obase.base.toList (limbsOf nv_conv.ibase.size nv_conv.ibase.prod) (nv_conv.matrix.toList.map Array.toList)
+      (fun l => exactRound nv_conv l % 2^64) = .ok [16, 3, 9, 3] := by
+  rw [grw_eca_eq]; decide +kernel
 
 end HC
